@@ -132,7 +132,9 @@ def body(ctx):
         size = rng.choice([0, 1, 7, 8, 9, 65535, 65536, 65537, rng.randint(0, 300000)] + ([rng.randint(1000000, 4000000)] if j % 13 == 0 else []))
         spec = dict(seed=ctx.seed * 13 + j, maxdata=rng.choice([4096, 65536, 1024 * 1024]), rid='random', frag=rng.choice(['whole', 'random', 'empty'] if size < 50000 else ['whole']),
                     ops=[dict(api='pull', path=rng.choice(['/p', '/sdcard/éa', '/фото.jpg', '/€']), path_bytes=rng.random() < 0.3, size=size, data_sizes=rng.choice([None, 'random']), cuts=rng.choice(['whole', 'random', 'small'] if size < 20000 else ['whole', 'random']),
-                              dest=rng.choice(['bytesio', 'path']), cb=rng.choice([None, 'ok', 'raise', 'raise_base']))])
+                              dest=rng.choice(['bytesio', 'path']), cb=rng.choice([None, 'ok', 'raise', 'raise_base']),
+                              local_as=rng.choice(['str', 'pathlib', 'bytes', 'fd']),                   # what open() accepts as a destination
+                              stat_size=rng.choice([None, None, 0, 1, size + 1, 0xFFFFFFFF]))])          # what STAT says need not be what RECV delivers (procfs; a growing file)
         mode = ('sync', 'async')[j % 2]
         runs.append((mode, spec) + run_with_inert(spec, mode))
     judge(ctx, runs, 'offsets, random sizes/records/cuts/destinations/callbacks')
